@@ -9,7 +9,8 @@ baton moves and to whom:
 
   generation : Bernoulli(p) per line, boosted right after a pyrtcm call/return
                (where shared state would be published or consumed), or PCT-style
-               change points at seeded global step numbers
+               change points at seeded global step numbers, or time slices of
+               log-uniformly drawn length (1 line .. several thousand)
   replay     : an explicit list [[global_step, target_thread], ...]
 
 Every switch taken is recorded as [global_step, target]; that list is the
@@ -25,13 +26,23 @@ class SchedulerError(BaseException):
 
 
 class Scheduler:
-    def __init__(self, src_prefix, rng=None, p=0.0, p_boost=0.0, change_points=None, script=None, max_steps=20_000_000):
+    def __init__(self, src_prefix, rng=None, p=0.0, p_boost=0.0, change_points=None, script=None, max_steps=20_000_000, slices=0):
         self.src_prefix = src_prefix
         self.rng = rng
         self.p = p
         self.p_boost = p_boost
         self.change_points = sorted(change_points) if change_points else None
         self.cpi = 0
+        # "slices" mode: every time the baton moves, the length of the next time slice is drawn
+        # log-uniformly from 1..slices lines, so that one run mixes very short slices (a thread is
+        # stopped between two particular lines) with long ones (another thread then gets far
+        # enough to touch the same state before the first resumes)
+        self.slices = abs(slices)
+        # slices < 0: the slice length counts only "fresh" lines (not executed by this thread within
+        # its last 2000 line events), so slice ends spread evenly over distinct source lines instead
+        # of piling up inside hot loops
+        self.fresh_only = slices < 0
+        self.remaining = 0
         self.script = [tuple(s) for s in script] if script is not None else None
         self.si = 0
         self.step = 0
@@ -47,7 +58,7 @@ class Scheduler:
         self.overlap_pairs = set()
 
     # -- decision ----------------------------------------------------------
-    def _decide(self, tid, boosted):
+    def _decide(self, tid, boosted, fresh=True):
         """return target thread id or -1"""
         step = self.step
         if self.script is not None:
@@ -63,6 +74,16 @@ class Scheduler:
         if self.change_points is not None:
             if self.cpi < len(self.change_points) and self.change_points[self.cpi] <= step:
                 self.cpi += 1
+                return self._pick_other(tid)
+            return -1
+        if self.slices:
+            if self.fresh_only and not fresh:
+                return -1  # slice length is measured in lines this thread has not executed recently
+            self.remaining -= 1
+            if self.remaining <= 0:
+                import math
+
+                self.remaining = int(math.exp(self.rng.random() * math.log(self.slices))) or 1
                 return self._pick_other(tid)
             return -1
         p = self.p_boost if boosted else self.p
@@ -82,6 +103,10 @@ class Scheduler:
         state = {"boost": False}
         sched = self
 
+        seen = {}
+        mine = [0]
+        fresh_only = self.fresh_only
+
         def local(frame, event, arg):
             if event == "line":
                 sched.step += 1
@@ -89,7 +114,14 @@ class Scheduler:
                     raise SchedulerError("step budget exceeded")
                 boosted = state["boost"]
                 state["boost"] = False
-                tgt = sched._decide(tid, boosted)
+                fresh = True
+                if fresh_only:
+                    mine[0] += 1
+                    key = (frame.f_code, frame.f_lineno)
+                    last = seen.get(key)
+                    fresh = last is None or mine[0] - last > 2000
+                    seen[key] = mine[0]
+                tgt = sched._decide(tid, boosted, fresh)
                 if tgt >= 0 and tgt != tid and tgt < sched.n and sched.alive[tgt]:
                     sched.taken.append([sched.step, tgt])
                     code = frame.f_code
